@@ -1,5 +1,5 @@
 (** C04 — what holds for POP3: an address that is its own canonical name reaches its mailbox *)
-From IV Require Import Base.Bytes Model.Addr Proofs.AddrFacts Proofs.AddrScan Proofs.AddrDomain Proofs.AddrNaming.
+From IV Require Import Base.Bytes Model.Addr Proofs.AddrFacts Proofs.AddrScan Proofs.AddrDomain Proofs.AddrNaming Proofs.AddrReadSide.
 Theorem pop3_user_partial : forall (parse_ip : str -> bool) mode a r, new_recipient parse_ip mode a = Some r -> r_mailbox r = a -> read_name parse_ip mode pop3_user_flow a = Some (r_mailbox r).
-Proof. exact AddrNaming.pop3_user_partial. Qed.
+Proof. exact AddrReadSide.pop3_user_partial. Qed.
 Print Assumptions pop3_user_partial.
